@@ -183,6 +183,11 @@ Section Locks.
       + apply NN. nn.
       + apply NN. nn.
       + (* KInjected *) exact C.
+      + (* KMacro *) destruct (interrupt_registered (st s n)); [exact C|]. apply NN.
+        set (s1 := with_macros s _). eapply no_new_trans; [apply (same_nodes s s1); reflexivity|]. apply no_new_set_ns. cbn. exact id.
+      + (* KCallMacro *) destruct (macro_lookup (macros s) name) as [m|]; [|exact C].
+        destruct (would_recurse p s name m); [exact C|]. destruct (n_kind (nd p m)); try exact C. destruct (Nat.leb _ _); [|exact C]. apply NN.
+        eapply no_new_trans; [apply no_new_reset_tree|]. apply no_new_set_ns. cbn. exact id.
     - exact C.
     - destruct (_ || _); exact C.
     - (* FKids *) destruct (nth_error (n_children (nd p n)) i) as [c|]; [|apply NN; nn].
@@ -223,6 +228,9 @@ Section Locks.
       eapply no_new_trans; [|apply no_new_unregister]. eapply no_new_trans; [apply no_new_mark_completed|].
       apply no_new_set_ns. cbn. exact id.
     - (* FInjAfter *) apply NN. nn.
+    - (* FMacro1 *) apply NN. nn.
+    - (* FCallAfter *) apply NN. eapply no_new_trans; [|apply no_new_mark_completed]. eapply no_new_trans; [|apply no_new_complete].
+      apply no_new_set_ns. cbn. exact id.
   Qed.
 
   Lemma Chain_init : Chain (init p).
